@@ -1,4 +1,5 @@
-"""shared by C01 / C02 / C03: harness variants of harness/c01_batch.cc (span and log batch processors)"""
+"""shared by C01 / C02 / C03: harness variants of harness/c01_batch.cc (span and log batch processors) and harness/c02_periodic.cc"""
+from common import SP_LEAK_MODEL, SP_RELEASE
 BATCH_MODELS = ['libc.c', 'cxxrt.c', 'stdstring.c', 'sched.c', 'single_threaded.c', 'pthread_clock.c', 'thread_cv.c']
 BATCH_US = {'verif_mem': 70}
 BATCH_ASSUMPTIONS = ['the worker thread is never started: its steps (Export, DrainQueue) are run by the harness directly, or from the hook where the calling thread blocks (condition wait / join, models/thread_cv.c)',
@@ -23,3 +24,7 @@ def add_ff_query(H, Q, logs, q, b, k, wmode, toclass, tier, timeout=600):
                   optional_reach=([] if wmode else ['ForceFlush true: everything ended before the call was exported exactly once', "ForceFlush true: the exporter's ForceFlush ran after those records"]),
                   shape='%s::ForceFlush: queue %d, batch %d, %d records queued; %s; timeout %s; condition waits may time out or not' % ('BatchLogRecordProcessor' if logs else 'BatchSpanProcessor', q, b, k,
                         'the worker runs an export cycle while the caller waits' if wmode else 'the worker never runs (clock advances >= 2 ms per reading)', ('0 (unlimited)', '1000 us', 'microseconds::max')[toclass])))
+
+def hp(t, i, w=1):
+    return dict(src='c02_periodic.cc', defines=['TICKETS=%d' % t, 'INTERFERE=%d' % i, 'WMODE=%d' % w, 'OTEL_INTERNAL_LOG_LEVEL=0'], models=BATCH_MODELS + ['future_once.c', SP_LEAK_MODEL], overrides=[SP_RELEASE], roots=['verif_worker_step', 'verif_thread_run'],
+                native_mode='generated_c', ir2c_flags=['--new-array-max', '136'], model_defines=['VERIF_NEW_ARRAY_MAX=136', 'VERIF_THREAD_RUN_AT_START', 'pthread_once=verif_pthread_once', '__once_proxy=verif_once_proxy', '_ZSt11__once_call=verif_once_call', '_ZSt15__once_callable=verif_once_callable'])
